@@ -142,9 +142,9 @@ def run(ctx):
         raise core.Infra("MC_Foreign_small failed:\n" + r0.out[-3000:])
     ctx.add("states", r0.distinct)
     ctx.add("transitions", r0.generated)
-    ntab = 3 if ctx.quick() else 30
+    ntab = 3 if ctx.quick() else 16
     per = 70 if ctx.quick() else 350
-    ngraph = 2 if ctx.quick() else 6
+    ngraph = 2 if ctx.quick() else 4
     for t in range(ntab):
         wd = ctx.sub("tab%d" % t)
         alpha = rng.choice([gen.ALPHA6, [0x61, 0x62], list(range(256))])
